@@ -85,6 +85,12 @@ def TickMap.set (m : TickMap) (i : Int) (v : TickData) : TickMap :=
 def isUsableTick (i : Int) (ts : Nat) : Bool :=
   decide (MIN_TICK_INDEX ≤ i) && decide (i ≤ MAX_TICK_INDEX) && decide (i % (ts : Int) = 0)
 
+/-- `checked_mul_div(..).unwrap_or(0)` -/
+def mulDivOr0 (a b d : Nat) : Nat :=
+  match checkedMulDiv a b d with
+  | .ok v => v
+  | .error _ => 0
+
 /-- `next_whirlpool_reward_infos` -/
 def nextRewardInfos (p : PoolD) (ts : Nat) : R (List RewardInfo) :=
   if ts < p.rewardTs then .error .InvalidTimestamp
@@ -94,10 +100,7 @@ def nextRewardInfos (p : PoolD) (ts : Nat) : R (List RewardInfo) :=
     .ok (p.rewards.map fun r =>
       if !r.initialized then r
       else
-        let delta := match checkedMulDiv dt r.emissions p.liq with
-          | .ok v => v
-          | .error _ => 0
-        { r with growth := wadd r.growth delta })
+        { r with growth := wadd r.growth (mulDivOr0 dt r.emissions p.liq) })
 
 /-- `next_whirlpool_liquidity` -/
 def nextWhirlpoolLiquidity (p : PoolD) (upper lower : Int) (delta : Int) : R Nat :=
